@@ -31,6 +31,12 @@ Step(Hh, e, t) ==
          IF t.kind \in {"rlock", "sem"} /\ e.ret.k # "AssertionError"
          THEN V(FALSE, Hh, "C15 releasing a " \o t.kind \o " that the caller does not hold was accepted: " \o ToJson(e.ret))
          ELSE V(TRUE, Hh, "")
+    ELSE IF e.ev = "ret" /\ e.op = "locked"
+    THEN \* Lock.locked(): certainly true while the caller itself holds the lock, certainly false when it is the only contender and does not
+         IF Hh[e.c] > 0 /\ e.ret.k # "true" THEN V(FALSE, Hh, "C15 locked() is not True while the caller holds the lock: " \o ToJson(e.ret))
+         ELSE IF t.nc = 1 /\ Hh[e.c] = 0 /\ e.ret.k # "false" THEN V(FALSE, Hh, "C15 locked() is not False although nobody holds the lock: " \o ToJson(e.ret))
+         ELSE IF e.ret.k \notin {"true", "false"} THEN V(FALSE, Hh, "C15 locked() returned no boolean")
+         ELSE V(TRUE, Hh, "")
     ELSE IF e.ev = "ret" /\ e.ret.k \notin {"none", "val"} /\ e.op # "bad_release"
     THEN V(FALSE, Hh, "C15 " \o e.op \o " failed with " \o e.ret.k)
     ELSE IF e.ev = "stuck"
